@@ -688,6 +688,25 @@ def run_standin(tier="quick", seed=0):
     return res
 
 
+def run_purity(tier="quick", seed=0):
+    """[supporting static fact, syntactic] dr is a pure function of (f, x): the headers implementing it declare no object with static or
+    thread storage duration and no `mutable` member (the clauses above execute ONE call; state carried between calls would escape them)"""
+    from . import c18
+    res = Results(PROP)
+    tag = PROP + "/no-state-between-calls"
+    files = ("diff.hpp", "wrt.hpp", "detail/diff_impl.hpp", "detail/wrt_impl.hpp")
+    found = c18.scan_static_storage(only=files)
+    res.functions.add("diff.hpp, wrt.hpp, detail/diff_impl.hpp, detail/wrt_impl.hpp (syntactic scan)")
+    for rel, ln, kind, name, code in found:
+        oid = "%s/%s@%d" % (tag, rel, ln)
+        res.add(oid, "refuted", "struct", 0.0, "%s storage in the differentiation code: %s" % (kind, code[:160]),
+                extra=dict(confirmed=False, replay=write_replay(oid, dict(obligation=oid, file=rel, line=ln, code=code,
+                           reason="an object with %s storage duration carries state from one dr call to the next: the result is no longer a function of (f, x)" % kind))))
+    if not found:
+        res.add(tag, "proved", "struct", 0.0, "no static / thread_local / mutable storage in %s" % ", ".join(files))
+    return res
+
+
 def tasks(tier, seed=0):
     t = []
     for cfg in ("A", "B", "C", "F"):
@@ -704,6 +723,7 @@ def tasks(tier, seed=0):
             for K in (1, 2):
                 t.append(("c08", "run_subset", (cfg, idx, K), dict(tier=tier, seed=seed)))
     t.append(("c08", "run_standin", (), dict(tier=tier, seed=seed)))
+    t.append(("c08", "run_purity", (), dict(tier=tier, seed=seed)))
     return t
 
 
